@@ -116,7 +116,7 @@ def serve(ctx, cfg, built, plan, rc, sources=False, n_requests=1, with_null=True
             ctx.mismatch(input_sig(cfg) or 'functions-called', '%s %s entered %r, expected %r' % (method, path, got, want), rc)
             return obs
         if sources:
-            req = {'seen_path': path, 'route_obj': built.app.routes[0]}
+            req = {'seen_path': path, 'route_obj': [r_ for r_ in built.app.routes if r_.pattern == built.pattern][0]}
             kinds = check_sources(ctx, cfg, built, plan.route, req, urlv, seen_ds, rc)
             for fid, ks in kinds.items():
                 obs['kinds'].setdefault(fid, set()).update(ks)
